@@ -352,7 +352,7 @@ def oracle_history(inp):
     """the value returned for (image, target, gaze) is what a fresh object returns, whatever came before"""
     kind, env, ops = inp['kind'], inp['env'], inp['ops']
     fresh = inp.get('_fresh') or Fresh()
-    recs = run_history(kind, env, ops)
+    recs = inp.get('_recs') or run_history(kind, env, ops)      # (_recs: the run the correspondence just made on this history)
     out = []
     for k, (obs, ci, ct, g, _) in enumerate(recs):
         exp = fresh(kind, ci, ct, g)
@@ -552,10 +552,12 @@ def fname(name, inp):
     return FN[inp['family']]
 
 
-def apply_oracle(ctx, name, inp, fresh=None):
+def apply_oracle(ctx, name, inp, fresh=None, recs=None):
     arg = dict(inp)
     if fresh is not None:
         arg['_fresh'] = fresh
+    if recs is not None:
+        arg['_recs'] = recs
     try:
         res = ORACLES[name](arg)
     except Exception as e:
@@ -960,13 +962,22 @@ def observed_events(kind, counts):
     return (pyr > 1, lod > 0)                      # one pyramid for the image, one more when the target is analysed again
 
 
-def kind_histories(kind, hs):
-    """which histories a loss configuration is run on (the non-default configurations skip the exhaustive 2-call family)"""
+EXHAUSTIVE_KINDS = ('blur_lowpass', 'metameric', 'metamer_mse')          # one configuration per class runs the exhaustive 2-call family
+
+
+def kind_histories(kind, hs, thorough=False):
+    """which histories a loss configuration is run on.  Quick tier: the exhaustive family of <= 2 calls for one configuration
+    per class; the other configurations run all boundary histories, and (the non-default ones) every second gaze-step and
+    random history, alternating with the position of the configuration so that each history is run by several of them."""
+    pos = list(KINDS).index(kind)
     for hi_, (label, env, ops) in enumerate(hs):
         if kind == 'metameric_uniform' and label.startswith('gaze-step'):
             continue                                  # takes no gaze
-        if kind not in BASE_KINDS and label.startswith('exhaustive') and label != 'exhaustive1':
-            continue
+        if not thorough:
+            if label.startswith('exhaustive') and kind not in EXHAUSTIVE_KINDS:
+                continue
+            if kind not in BASE_KINDS and (label.startswith('gaze-step') or label == 'random') and (hi_ + pos) % 2:
+                continue
         yield hi_, label, env, ops
 
 
@@ -975,7 +986,7 @@ def machine_correspondence(ctx, hs, fresh):
     combos = {}
     for kind, (mach, _, c0) in KINDS.items():
         key = 'uniform' if kind == 'metameric_uniform' else (mach, c0)
-        combos.setdefault(key, set()).update(hi_ for hi_, _, _, _ in kind_histories(kind, hs))
+        combos.setdefault(key, set()).update(hi_ for hi_, _, _, _ in kind_histories(kind, hs, ctx.thorough))
     terms, index = [], []
     for key, his in sorted(combos.items(), key=str):
         for hi_ in sorted(his):
@@ -993,7 +1004,7 @@ def machine_correspondence(ctx, hs, fresh):
     mism = 0; total = 0; legacy_like = 0
     ev_total = 0; stale_hits = []; extra_recomputes = 0; no_instr = 0
     for kind, (mach, _, c0) in KINDS.items():
-        for hi_, label, env, ops in kind_histories(kind, hs):
+        for hi_, label, env, ops in kind_histories(kind, hs, ctx.thorough):
             inp = {'kind': kind, 'env': env, 'ops': ops, 'label': label}
             try:
                 recs = run_history(kind, env, ops)
@@ -1042,7 +1053,7 @@ def machine_correspondence(ctx, hs, fresh):
                     elif o and not m:
                         extra_recomputes += 1
             ctx.case('history/%s/%s' % (kind, label), (kind, json.dumps(env), json.dumps(ops)), nontrivial=ncalls >= 2)
-            apply_oracle(ctx, 'history', inp, fresh)                 # the direct oracle on the same history gives the replayable input
+            apply_oracle(ctx, 'history', inp, fresh, recs)           # the direct oracle on the same history gives the replayable input
             if len(ctx.samples) < 5 and label in ('gaze-edited-in-place', 'new-size') and kind in ('metameric', 'blur_lowpass'):
                 ctx.sample({'kind': kind, 'history': label, 'ops': ops, 'model_descriptors': pr, 'model_events[target recomputed, lod recomputed]': ev,
                             'implementation': [r[0] for r in recs], 'implementation_helper_calls(lod, pyramid)': [r[4] for r in recs]})
@@ -1100,15 +1111,19 @@ def run(ctx):
             ctx.obligation('translator-self-check', False, repr(e))
         ctx.sample({'traced_definition': 'tv2d', 'coq': __import__('tracer.shim').shim.coq(g.by_name['tv2d'][1])[:300]})
     # ---- B2
+    ctx.log('B1 done; B2 histogram')
     hist_correspondence(ctx)
+    ctx.log('B2 state machines')
     fresh = Fresh()
     hs = gen_histories(ctx)
     machine_correspondence(ctx, hs, fresh)
+    ctx.log('RadiallyVaryingBlur key / machine')
     ORACLES['rvb'] = oracle_rvb
     rvb_key_check(ctx)
     rvb_machine_correspondence(ctx)
     ctx.exhaustive = True
     ctx.extra['exhaustive_domain'] = 'all histories of <= %d calls over 2 gaze lists x 2 targets x 2 image sizes, for each of %d loss configurations' % (3 if ctx.thorough else 2, len(KINDS))
+    ctx.log('stateless oracles')
     # ---- direct oracles: stateless clauses
     n_or = 0
     for inp in gen_stateless(ctx):
